@@ -238,11 +238,43 @@ func runC03(p *core.Prog, r *core.Report) {
 		checkField := func(st *types.Named, field string, want *ssa.Parameter, forbid []*ssa.Parameter, construct, desc string) {
 			fv := core.FieldOf(st, field)
 			stores := core.FindInstrs(fn, core.IsStoreToField(fv))
+			// the message may be built by a helper of the family: its parameters are then mapped back to the arguments of
+			// the call in handleStepUndo
+			var helper *ssa.Function
+			var helperCall ssa.CallInstruction
+			if len(stores) == 0 {
+				for _, m := range core.Family(fn, 1) {
+					if m == fn || m.Parent() != nil {
+						continue
+					}
+					if ss := core.FindInstrs(m, core.IsStoreToField(fv)); len(ss) > 0 {
+						for _, c := range core.FindInstrs(fn, func(x ssa.Instruction) bool {
+							ci, ok := x.(ssa.CallInstruction)
+							return ok && core.StaticFn(ci.Common()) == m
+						}) {
+							helper, helperCall, stores = m, c.(ssa.CallInstruction), ss
+						}
+					}
+				}
+			}
 			if len(stores) == 0 {
 				core.Undecide("handleStepUndo: no assignment of %s.%s", st.Obj().Name(), field)
 			}
 			for _, s := range stores {
 				src := core.ParamSources(s.(*ssa.Store).Val, 3)
+				if helper != nil {
+					mapped := map[*ssa.Parameter]bool{}
+					for hp := range src {
+						for i, prm := range helper.Params {
+							if prm == hp && i < len(helperCall.Common().Args) {
+								for op := range core.ParamSources(helperCall.Common().Args[i], 3) {
+									mapped[op] = true
+								}
+							}
+						}
+					}
+					src = mapped
+				}
 				ok := src[want]
 				for _, f := range forbid {
 					if src[f] {
@@ -344,6 +376,11 @@ func checkWriters(p *core.Prog, r *core.Report, rule, what string, f *types.Var,
 		}
 		seen[key] = true
 		_, ok := allowed[name]
+		if !ok {
+			// a private helper all of whose callers are documented writers (the body of one of them, extracted) writes on
+			// their behalf
+			ok = onlyCalledByAllowed(p, core.RootFn(w.Fn), allowed, 2)
+		}
 		r.Check(ok, rule, key, fmt.Sprintf("only the documented functions write %s", what),
 			fmt.Sprintf("%s of %s in %s, which is not an allowed writer", w.Kind, what, name), p.Pos(core.InstrPos(w.Instr)))
 	}
@@ -405,4 +442,38 @@ func checkReversibleForgotten(p *core.Prog, r *core.Report, rule string) {
 		r.Check(bad == "", rule, "handleStepUndo/order", "the undo handlers read the block's reversible outputs before they are removed", "reversibleOutputs read after removal at "+bad, p.Pos(fn.Pos()))
 	})
 
+}
+
+// onlyCalledByAllowed: fn is unexported, has at least one caller, and every caller is an allowed writer (or is itself such
+// a helper, up to depth).
+func onlyCalledByAllowed(p *core.Prog, fn *ssa.Function, allowed map[string]string, depth int) bool {
+	if fn == nil || depth < 0 {
+		return false
+	}
+	if fn.Synthetic == "" && (fn.Object() == nil || fn.Object().Exported()) {
+		return false
+	}
+	node := p.CallGraph(false).Nodes[fn]
+	if node == nil || len(node.In) == 0 {
+		return false
+	}
+	for _, in := range node.In {
+		caller := core.RootFn(in.Caller.Func)
+		if caller == fn {
+			continue
+		}
+		if caller.Synthetic != "" {
+			// a promoted-method wrapper (through struct embedding): transparent — what matters is who calls the wrapper
+			if cn := p.CallGraph(false).Nodes[caller]; cn == nil || len(cn.In) == 0 {
+				continue
+			}
+		}
+		if _, ok := allowed[core.FuncName(caller)]; ok {
+			continue
+		}
+		if !onlyCalledByAllowed(p, caller, allowed, depth-1) {
+			return false
+		}
+	}
+	return true
 }
